@@ -658,9 +658,13 @@ Proof.
 Qed.
 
 (* once one Current has run at instant t, further calls at t leave the state alone *)
+Lemma opt_key_eqb_refl : forall a, opt_key_eqb a a = true.
+Proof. intros [k|]; simpl; [apply key_eqb_eq|]; reflexivity. Qed.
+
+(* once one Current has run at instant t, further calls at t leave the state alone *)
 Lemma group_after : forall ops s0 s1 t kc s' bs, current s1 t t = Some (kc, s1) ->
   Forall (at_instant t) ops -> run s1 ops = Some (s', bs) ->
-  s' = s1 /\ forallb2 (group_obs_ok s0 s1 kc) ops bs = true.
+  s' = s1 /\ forall inb, group_walk s0 s1 kc inb ops bs = true.
 Proof.
   induction ops as [|o r IH]; simpl; intros s0 s1 t kc s' bs Hc Hf Hr.
   - inversion Hr. split; reflexivity.
@@ -669,46 +673,56 @@ Proof.
     destruct (run s2 r) as [[s3 bs']|] eqn:Er; [|discriminate]. inversion Hr. subst s3 bs. clear Hr.
     destruct o as [g t1 t2 | g id t1]; simpl in Ha1, Ha2, Es; [subst t1 t2 | subst t1; clear Ha2].
     + rewrite Hc in Es. inversion Es. subst s2 b. clear Es.
-      destruct (IH s0 s1 t kc s' bs' Hc Hf' Er) as [H1 H2]. split; [assumption|].
+      destruct (IH s0 s1 t kc s' bs' Hc Hf' Er) as [H1 H2]. split; [assumption|]. intros inb.
       simpl. rewrite H2. rewrite !Z.eqb_refl. simpl.
       assert (Ht : (if need_renew s1 t then t else t) = t) by (destruct (need_renew s1 t); reflexivity).
       rewrite Ht, Z.eqb_refl. simpl. rewrite andb_true_r. apply key_eqb_eq. reflexivity.
     + inversion Es. subst s2 b. clear Es.
-      destruct (IH s0 s1 t kc s' bs' Hc Hf' Er) as [H1 H2]. split; [assumption|].
-      simpl. rewrite H2. rewrite !Z.eqb_refl. simpl. rewrite andb_true_r.
-      apply orb_true_iff. right.
-      destruct (get s1 id t) as [k|]; simpl; [apply key_eqb_eq|]; reflexivity.
+      destruct (IH s0 s1 t kc s' bs' Hc Hf' Er) as [H1 H2]. split; [assumption|]. intros inb.
+      simpl. rewrite !Z.eqb_refl. simpl. rewrite !H2, opt_key_eqb_refl. simpl.
+      destruct (existsb (Z.eqb g) inb); [reflexivity|].
+      destruct (opt_key_eqb (get s1 id t) (get s0 id t)); reflexivity.
 Qed.
 
-(* whatever order the lock chose for the calls of one instant, the group check
-   accepts the observations and computes the same state *)
-Lemma group_sound : forall ops s t s' bs, Forall (at_instant t) ops ->
-  run s ops = Some (s', bs) -> group_step s t ops bs = Some s'.
+Lemma group_before : forall ops s t s' bs, Forall (at_instant t) ops -> run s ops = Some (s', bs) ->
+  (group_has_cur ops = false -> s' = s /\ forall sB kc, group_walk s sB kc [] ops bs = true) /\
+  (group_has_cur ops = true -> exists kc s1, current s t t = Some (kc, s1) /\ s' = s1 /\ group_walk s s1 kc [] ops bs = true).
 Proof.
-  unfold group_step.
-  induction ops as [|o r IH]; simpl; intros s t s' bs Hf Hr.
-  - inversion Hr. reflexivity.
-  - inversion Hf as [|? ? Ha Hf']; subst. destruct Ha as [Ha1 Ha2].
+  induction ops as [|o r IH]; intros s t s' bs Hf Hr.
+  - simpl in Hr. inversion Hr. split; [intros _; split; reflexivity | intros H; discriminate].
+  - inversion Hf as [|? ? Ha Hf']; subst. destruct Ha as [Ha1 Ha2]. simpl in Hr.
     destruct (step s o) as [[s2 b]|] eqn:Es; [|discriminate].
     destruct (run s2 r) as [[s3 bs']|] eqn:Er; [|discriminate]. inversion Hr. subst s3 bs. clear Hr.
     destruct o as [g t1 t2 | g id t1]; simpl in Ha1, Ha2, Es; [subst t1 t2 | subst t1; clear Ha2].
-    + simpl. destruct (current s t t) as [[kc s1]|] eqn:Ec; [|discriminate].
-      inversion Es. subst s2 b. clear Es.
+    + split; [intros H; discriminate | intros _].
+      destruct (current s t t) as [[kc s1]|] eqn:Ec; [|discriminate].
+      inversion Es. subst s2 b. clear Es. exists kc, s1. split; [reflexivity|].
       destruct (group_after r s s1 t kc s' bs' (current_idem _ _ _ _ Ec) Hf' Er) as [H1 H2].
-      subst s'. simpl. rewrite H2. rewrite !Z.eqb_refl.
+      split; [assumption|]. simpl. rewrite H2. rewrite !Z.eqb_refl.
       assert (Ht : (if need_renew s t then t else t) = t) by (destruct (need_renew s t); reflexivity).
-      rewrite Ht, Z.eqb_refl. simpl.
-      assert (Hk : key_eqb kc kc = true) by (apply key_eqb_eq; reflexivity). rewrite Hk. reflexivity.
-    + inversion Es. subst s2 b. clear Es. simpl.
-      specialize (IH s t s' bs' Hf' Er).
-      assert (Hg : opt_key_eqb (get s id t) (get s id t) = true).
-      { destruct (get s id t) as [k|]; simpl; [apply key_eqb_eq|]; reflexivity. }
-      destruct (group_has_cur r).
-      * destruct (current s t t) as [[kc s1]|]; [|discriminate].
-        destruct (forallb2 (group_obs_ok s s1 kc) r bs') eqn:Ef; [|discriminate].
-        simpl. rewrite !Z.eqb_refl, Hg. simpl. assumption.
-      * destruct (forallb2 (group_obs_ok s s zero_key) r bs') eqn:Ef; [|discriminate].
-        simpl. rewrite !Z.eqb_refl, Hg. simpl. assumption.
+      rewrite Ht, Z.eqb_refl. simpl. rewrite andb_true_r. apply key_eqb_eq. reflexivity.
+    + inversion Es. subst s2 b. clear Es.
+      destruct (IH s t s' bs' Hf' Er) as [IH1 IH2].
+      change (group_has_cur (OGet g id t :: r)) with (group_has_cur r).
+      split.
+      * intros Hn. destruct (IH1 Hn) as [H1 H2]. split; [assumption|]. intros sB kc.
+        simpl. rewrite !Z.eqb_refl, opt_key_eqb_refl. simpl. apply H2.
+      * intros Hy. destruct (IH2 Hy) as [kc [s1 [H1 [H2 H3]]]]. exists kc, s1.
+        split; [assumption|]. split; [assumption|].
+        simpl. rewrite !Z.eqb_refl, opt_key_eqb_refl. simpl. assumption.
+Qed.
+
+(* whatever order the lock chose for the calls of one instant (each goroutine's own
+   calls in program order), the group check accepts the observations and computes the
+   same state *)
+Lemma group_sound : forall ops s t s' bs, Forall (at_instant t) ops ->
+  run s ops = Some (s', bs) -> group_step s t ops bs = Some s'.
+Proof.
+  intros ops s t s' bs Hf Hr. unfold group_step.
+  destruct (group_before ops s t s' bs Hf Hr) as [H1 H2].
+  destruct (group_has_cur ops).
+  - destruct (H2 eq_refl) as [kc [s1 [Ha [Hb Hc]]]]. rewrite Ha, Hc. subst. reflexivity.
+  - destruct (H1 eq_refl) as [Ha Hb]. rewrite Hb. subst. reflexivity.
 Qed.
 
 (* ---------- the lock: every interleaving is a sequential history in lock order ---------- *)
@@ -884,27 +898,61 @@ Definition gobs (s s' : state) (kc : key) (has_cur : bool) (t : Z) (b : obs) : P
   | BGet _ t' id r => t' = t /\ (r = get s id t \/ r = get s' id t)
   end.
 
-Lemma group_obs_facts : forall ops bs s s' kc t, Forall (at_instant t) ops ->
-  forallb2 (group_obs_ok s s' kc) ops bs = true -> Forall (gobs s s' kc (group_has_cur ops) t) bs.
+Lemma group_obs_facts : forall ops bs s s' kc inb t, Forall (at_instant t) ops ->
+  group_walk s s' kc inb ops bs = true -> Forall (gobs s s' kc (group_has_cur ops) t) bs.
 Proof.
-  induction ops as [|o r IH]; intros bs s s' kc t Hf H; destruct bs as [|b bs']; simpl in H; try discriminate.
+  induction ops as [|o r IH]; intros bs s s' kc inb t Hf H; destruct bs as [|b bs']; simpl in H; try discriminate.
   - constructor.
-  - apply andb_true_iff in H. destruct H as [H1 H2].
-    inversion Hf as [|? ? Ha Hf']; subst. destruct Ha as [Ha1 Ha2].
-    specialize (IH _ _ _ _ _ Hf' H2).
-    constructor.
-    + destruct o as [g t1 t2 | g id t1]; destruct b as [g' t' k | g' t' id' rr]; simpl in H1; try discriminate;
-        simpl in Ha1, Ha2.
-      * rewrite !andb_true_iff in H1. destruct H1 as [[H3 H4] H5]. apply Z.eqb_eq in H4. apply key_eqb_eq in H5.
-        simpl. repeat split; congruence.
-      * rewrite !andb_true_iff in H1. destruct H1 as [[[H3 H4] H5] H6].
-        apply Z.eqb_eq in H4, H5. apply orb_true_iff in H6. subst.
-        simpl. split; [reflexivity|]. destruct H6 as [H6 | H6]; apply opt_key_eqb_eq in H6; [left | right]; assumption.
-    + apply (Forall_impl _ (P := gobs s s' kc (group_has_cur r) t)); [|assumption].
+  - inversion Hf as [|? ? Ha Hf']; subst. destruct Ha as [Ha1 Ha2].
+    assert (Hweak : forall inb', group_walk s s' kc inb' r bs' = true ->
+                    Forall (gobs s s' kc (group_has_cur (o :: r)) t) bs').
+    { intros inb' Hw. apply (Forall_impl _ (P := gobs s s' kc (group_has_cur r) t)); [|apply (IH _ _ _ _ _ _ Hf' Hw)].
       intros x Hx. destruct x as [g' t' k | g' t' id' rr]; simpl in *; [|assumption].
       destruct Hx as [Hx1 [Hx2 Hx3]]. repeat split; try assumption.
       change (group_has_cur (o :: r)) with ((match o with OCur _ _ _ => true | _ => false end) || group_has_cur r).
-      rewrite Hx3. apply orb_true_r.
+      rewrite Hx3. apply orb_true_r. }
+    destruct o as [g t1 t2 | g id t1]; destruct b as [g' t' k | g' t' id' rr]; try discriminate;
+      simpl in Ha1, Ha2.
+    + rewrite !andb_true_iff in H. destruct H as [[[H3 H4] H5] H6]. apply Z.eqb_eq in H4. apply key_eqb_eq in H5.
+      constructor; [simpl; repeat split; congruence | apply (Hweak _ H6)].
+    + rewrite !andb_true_iff in H. destruct H as [[[H3 H4] H5] H6]. apply Z.eqb_eq in H4, H5.
+      assert (Et : t' = t) by congruence. assert (Ei : id' = id) by congruence. subst t' id' t1.
+      destruct (existsb (Z.eqb g) inb).
+      * apply andb_true_iff in H6. destruct H6 as [H6 H7]. apply opt_key_eqb_eq in H6.
+        constructor; [simpl; split; [reflexivity | right; assumption] | apply (Hweak _ H7)].
+      * destruct (opt_key_eqb rr (get s id t)) eqn:E1.
+        -- apply opt_key_eqb_eq in E1. constructor; [simpl; split; [reflexivity | left; assumption] | apply (Hweak _ H6)].
+        -- apply andb_true_iff in H6. destruct H6 as [H6 H7]. apply opt_key_eqb_eq in H6.
+           constructor; [simpl; split; [reflexivity | right; assumption] | apply (Hweak _ H7)].
+Qed.
+
+(* a goroutine that is "in" only sees the state after the first Current *)
+Lemma walk_inb : forall ops bs s s' kc inb t, Forall (at_instant t) ops ->
+  group_walk s s' kc inb ops bs = true ->
+  forall g t' id r, In (BGet g t' id r) bs -> existsb (Z.eqb g) inb = true -> r = get s' id t.
+Proof.
+  induction ops as [|o r0 IH]; intros bs s s' kc inb t Hf H; destruct bs as [|b bs']; simpl in H; try discriminate.
+  - intros g t' id r [].
+  - inversion Hf as [|? ? Ha Hf']; subst. destruct Ha as [Ha1 Ha2].
+    assert (Hgrow : forall g x, existsb (Z.eqb g) inb = true -> existsb (Z.eqb g) (x :: inb) = true).
+    { intros g x Hx. simpl. rewrite Hx. apply orb_true_r. }
+    destruct o as [g0 t1 t2 | g0 id0 t1]; destruct b as [g' t' k | g' t' id' rr]; try discriminate;
+      simpl in Ha1, Ha2.
+    + rewrite !andb_true_iff in H. destruct H as [_ H6].
+      intros g t'' id r [Heq | Hin] Hm; [discriminate|].
+      apply (IH _ _ _ _ _ _ Hf' H6 g t'' id r Hin). apply Hgrow. assumption.
+    + rewrite !andb_true_iff in H. destruct H as [[[H3 H4] H5] H6]. apply Z.eqb_eq in H3, H4, H5.
+      assert (Et : t' = t) by congruence. assert (Ei : id' = id0) by congruence. assert (Eg : g' = g0) by congruence.
+      subst t' id' g' t1.
+      intros g t'' id r [Heq | Hin] Hm.
+      * inversion Heq. subst. rewrite Hm in H6. apply andb_true_iff in H6. destruct H6 as [H6 _].
+        apply opt_key_eqb_eq in H6. assumption.
+      * destruct (existsb (Z.eqb g0) inb).
+        -- apply andb_true_iff in H6. destruct H6 as [_ H7]. apply (IH _ _ _ _ _ _ Hf' H7 g t'' id r Hin Hm).
+        -- destruct (opt_key_eqb rr (get s id0 t)).
+           ++ apply (IH _ _ _ _ _ _ Hf' H6 g t'' id r Hin Hm).
+           ++ apply andb_true_iff in H6. destruct H6 as [_ H7].
+              apply (IH _ _ _ _ _ _ Hf' H7 g t'' id r Hin). apply Hgrow. assumption.
 Qed.
 
 Definition gfacts (s s' : state) (t : Z) (b : obs) : Prop :=
@@ -922,13 +970,13 @@ Proof.
     destruct (get_spec _ _ _ _ _ _ Hi Eg) as [Ha [Hb [Hc Hd]]]. repeat split; try assumption; try lia. apply Hl. assumption. }
   destruct (group_has_cur ops) eqn:Ehc.
   - destruct (current s t t) as [[kc s1]|] eqn:Ec; [|discriminate].
-    destruct (forallb2 (group_obs_ok s s1 kc) ops bs) eqn:Ef; [|discriminate]. inversion Hg. subst s1. clear Hg.
+    destruct (group_walk s s1 kc [] ops bs) eqn:Ef; [|discriminate]. inversion Hg. subst s1. clear Hg.
     assert (Htt : t <= t) by lia.
     destruct (current_step _ _ _ _ _ _ _ H Ht Htt Ec) as [Hi [Hk [Hv [Ha [Hc [Hl _]]]]]].
     assert (Hct : cur_time s t t = t) by (unfold cur_time; destruct (need_renew s t); reflexivity).
     rewrite Hct in *.
     split; [assumption|]. split; [assumption|]. split; [assumption|].
-    pose proof (group_obs_facts _ _ _ _ _ _ Hf Ef) as Hfa.
+    pose proof (group_obs_facts _ _ _ _ _ _ _ Hf Ef) as Hfa.
     apply (Forall_impl _ (P := gobs s s' kc (group_has_cur ops) t)); [|assumption].
     intros b Hb. destruct b as [g' t' k | g' t' id' rr]; simpl in Hb.
     + destruct Hb as [Hb1 [Hb2 _]]. subst t' k. unfold gfacts. simpl.
@@ -939,10 +987,10 @@ Proof.
       destruct Hb2 as [Hb2 | Hb2].
       * apply (Hget s id' rr (inv_weaken _ _ _ _ H Ht) Hl Hb2).
       * apply (Hget s' id' rr Hi (fun x Hx => Hx) Hb2).
-  - destruct (forallb2 (group_obs_ok s s zero_key) ops bs) eqn:Ef; [|discriminate]. inversion Hg. subst s'. clear Hg.
+  - destruct (group_walk s s zero_key [] ops bs) eqn:Ef; [|discriminate]. inversion Hg. subst s'. clear Hg.
     pose proof (inv_weaken _ _ _ _ H Ht) as Hi.
     split; [assumption|]. split; [lia|]. split; [intros x Hx; assumption|].
-    pose proof (group_obs_facts _ _ _ _ _ _ Hf Ef) as Hfa. rewrite Ehc in Hfa.
+    pose proof (group_obs_facts _ _ _ _ _ _ _ Hf Ef) as Hfa. rewrite Ehc in Hfa.
     apply (Forall_impl _ (P := gobs s s zero_key false t)); [|assumption].
     intros b Hb. destruct b as [g' t' k | g' t' id' rr]; simpl in Hb.
     + destruct Hb as [_ [_ Hb]]. discriminate.
@@ -985,44 +1033,60 @@ Proof.
     simpl in Hid. apply Z.leb_le. lia.
 Qed.
 
-(* two observations of the same group, made by different goroutines *)
+(* two observations of the same group: if the same goroutine made both, its Get after
+   its own Current saw the state after that Current *)
 Lemma pair_within : forall t0 s s' t b b', Inv t0 t s' -> gfacts s s' t b -> gfacts s s' t b' ->
-  obs_g b' <> obs_g b -> pair_ok b b' = true.
+  (obs_g b' = obs_g b -> match b, b' with BCur _ _ _, BGet _ _ id r => r = get s' id t | _, _ => True end) ->
+  pair_ok b b' = true.
 Proof.
-  intros t0 s s' t b b' Hi [Hg [Hbt [Hid _]]] [Hg' [Hbt' [Hid' _]]] Hne.
+  intros t0 s s' t b b' Hi [Hg [Hbt [Hid _]]] [Hg' [Hbt' [Hid' _]]] Hsame.
   unfold pair_ok. rewrite !andb_true_iff. repeat split.
   - destruct (obs_key b) as [x|] eqn:Ex; [|reflexivity].
     destruct (obs_key b') as [y|] eqn:Ey; [|reflexivity].
     apply (compat_log (glog s')); [apply (inv_log _ _ _ Hi) | apply (obs_good_key _ _ _ Hg Ex) | apply (obs_good_key _ _ _ Hg' Ey)].
   - destruct b as [g tb k | g tb id r]; [|reflexivity].
     destruct b' as [g' t' k' | g' t' id' r']; [reflexivity|]. simpl in *. subst tb t'.
-    assert (E1 : (t <? t) = false) by (apply Z.ltb_ge; lia).
-    assert (E2 : (g' =? g) = false) by (apply Z.eqb_neq; assumption).
-    rewrite E1, E2. simpl. rewrite andb_false_r. reflexivity.
+    assert (E1 : (t <? t) = false) by (apply Z.ltb_ge; lia). rewrite E1. simpl.
+    destruct ((id' =? k_id k) && (g' =? g)) eqn:Ec; [|reflexivity].
+    apply andb_true_iff in Ec. destruct Ec as [Ec1 Ec2]. apply Z.eqb_eq in Ec1, Ec2. subst id'.
+    specialize (Hsame Ec2). subst r'.
+    destruct Hg as [Hin [Hv [Ha Hwf]]]. unfold key_wf in Hwf.
+    assert (Htt : t <= t) by lia.
+    rewrite (get_live _ _ _ t k Hi Htt Hin Hv).
+    assert (Hk : key_eqb k k = true) by (apply key_eqb_eq; reflexivity). rewrite Hk.
+    assert (E2 : (k_nb k + key_validity <? t) = false) by (apply Z.ltb_ge; lia). rewrite E2.
+    destruct (t <=? t + two_days); reflexivity.
   - destruct b as [g tb k | g tb id r]; [|reflexivity].
     destruct b' as [g' t' k' | g' t' id' r']; [|reflexivity].
     simpl in Hid, Hid'. apply Z.leb_le. lia.
 Qed.
 
-Lemma distinct_head : forall x l y, distinct_zs (x :: l) = true -> In y l -> y <> x.
+Lemma group_within_ok : forall ops bs t0 s s' kc inb t, Inv t0 t s' -> Forall (at_instant t) ops ->
+  group_walk s s' kc inb ops bs = true -> Forall (gfacts s s' t) bs -> C12_ok bs = true.
 Proof.
-  intros x l y H Hin Heq. subst y. simpl in H. apply andb_true_iff in H. destruct H as [H _].
-  apply negb_true_iff in H. assert (Hex : existsb (Z.eqb x) l = true).
-  { apply existsb_exists. exists x. split; [assumption | apply Z.eqb_refl]. }
-  congruence.
-Qed.
-
-Lemma group_within_ok : forall t0 s s' t bs, Inv t0 t s' -> Forall (gfacts s s' t) bs ->
-  distinct_zs (map obs_g bs) = true -> C12_ok bs = true.
-Proof.
-  induction bs as [|b r IH]; intros Hi Hf Hd; [reflexivity|].
-  inversion Hf as [|? ? Hb Hf']; subst. simpl.
-  destruct Hb as [Hg Hrest]. rewrite (obs_good_ok _ _ Hg). simpl.
-  assert (Hd' : distinct_zs (map obs_g r) = true) by (simpl in Hd; apply andb_true_iff in Hd; tauto).
-  rewrite (IH Hi Hf' Hd'), andb_true_r.
-  apply forallb_forall. intros b' Hin.
-  apply (pair_within t0 s s' t); [assumption | split; assumption | rewrite Forall_forall in Hf'; apply Hf'; assumption|].
-  apply (distinct_head _ (map obs_g r)); [assumption | apply in_map; assumption].
+  induction ops as [|o r IH]; intros bs t0 s s' kc inb t Hi Hf Hw Hfa; destruct bs as [|b bs']; simpl in Hw; try discriminate.
+  - reflexivity.
+  - inversion Hf as [|? ? Ha Hf']; subst. inversion Hfa as [|? ? Hb Hfa']; subst.
+    assert (Hgood : obs_ok b = true) by (destruct Hb as [Hg _]; apply (obs_good_ok _ _ Hg)).
+    (* the walk continues on the tail with some inb' that contains g if b is a Current by g *)
+    assert (Htail : exists inb', group_walk s s' kc inb' r bs' = true /\
+                    (forall g tb k, b = BCur g tb k -> existsb (Z.eqb g) inb' = true)).
+    { destruct o as [g t1 t2 | g id t1]; destruct b as [g' t' k | g' t' id' rr]; try discriminate.
+      - rewrite !andb_true_iff in Hw. destruct Hw as [[[H3 _] _] H6]. apply Z.eqb_eq in H3. subst g'.
+        exists (g :: inb). split; [assumption|]. intros g0 tb k0 Heq. inversion Heq. subst. simpl. rewrite Z.eqb_refl. reflexivity.
+      - rewrite !andb_true_iff in Hw. destruct Hw as [_ H6].
+        destruct (existsb (Z.eqb g) inb).
+        + apply andb_true_iff in H6. destruct H6 as [_ H7]. exists inb. split; [assumption | intros; discriminate].
+        + destruct (opt_key_eqb rr (get s id t1)).
+          * exists inb. split; [assumption | intros; discriminate].
+          * apply andb_true_iff in H6. destruct H6 as [_ H7]. exists (g :: inb). split; [assumption | intros; discriminate]. }
+    destruct Htail as [inb' [Hw' Hcur]].
+    simpl. rewrite Hgood, (IH _ _ _ _ _ _ _ Hi Hf' Hw' Hfa'). simpl. rewrite andb_true_r.
+    apply forallb_forall. intros b' Hin.
+    apply (pair_within t0 s s' t); [assumption | assumption | rewrite Forall_forall in Hfa'; apply Hfa'; assumption|].
+    intros Hsame. destruct b as [g tb k | g tb id rr]; [|exact I].
+    destruct b' as [g' t' k' | g' t' id' r']; [exact I|]. simpl in Hsame. subst g'.
+    apply (walk_inb _ _ _ _ _ _ _ Hf' Hw' g t' id' r' Hin). apply (Hcur g tb k eq_refl).
 Qed.
 
 Lemma C12_ok_app : forall l1 l2, C12_ok l1 = true -> C12_ok l2 = true ->
@@ -1066,25 +1130,90 @@ Proof.
 Qed.
 
 (* every chain of accepted groups satisfies the property oracle *)
-Lemma groups_sound : forall gs t0 T s, Inv t0 T s -> groups_ok s T gs = true -> groups_wf gs = true ->
+Lemma groups_sound : forall gs t0 T s, Inv t0 T s -> groups_ok s T gs = true ->
   C12_ok (groups_obs gs) = true.
 Proof.
-  induction gs as [|[[t ops] bs] r IH]; intros t0 T s H Hg Hw; [reflexivity|].
+  induction gs as [|[[t ops] bs] r IH]; intros t0 T s H Hg; [reflexivity|].
   pose proof (groups_instants _ _ _ Hg) as Hinst. simpl in Hg.
   rewrite !andb_true_iff in Hg. destruct Hg as [[H1 H2] H3]. apply Z.leb_le in H1.
   destruct (group_step s t ops bs) as [s'|] eqn:Eg; [|discriminate].
   inversion Hinst as [|? ? Hi1 _]; subst. unfold group_times_ok in Hi1. simpl in Hi1.
   destruct (group_facts _ _ _ _ _ _ _ H H1 Hi1 Eg) as [Hi [Hcur [Hl Hf]]].
-  unfold groups_wf in Hw. simpl in Hw. apply andb_true_iff in Hw. destruct Hw as [Hw1 Hw2].
   change (groups_obs ((t, ops, bs) :: r)) with (bs ++ groups_obs r).
   apply C12_ok_app.
-  - apply (group_within_ok t0 s s' t bs Hi Hf Hw1).
-  - apply (IH t0 t s' Hi H3 Hw2).
+  - unfold group_step in Eg. destruct (group_has_cur ops).
+    + destruct (current s t t) as [[kc s1]|]; [|discriminate].
+      destruct (group_walk s s1 kc [] ops bs) eqn:Ew; [|discriminate]. inversion Eg. subst s1.
+      apply (group_within_ok ops bs t0 s s' kc [] t Hi Hi1 Ew Hf).
+    + destruct (group_walk s s zero_key [] ops bs) eqn:Ew; [|discriminate]. inversion Eg. subst s'.
+      apply (group_within_ok ops bs t0 s s zero_key [] t Hi Hi1 Ew Hf).
+  - apply (IH t0 t s' Hi H3).
   - intros b Hin. apply (groups_later r t0 t s' b Hi); [|assumption].
     rewrite Forall_forall in Hf. destruct (Hf _ Hin) as [Hg [Hbt [Hid _]]].
     split; [lia|]. split; [assumption|]. destruct b as [g tb k | g tb id rr]; [simpl in Hid; lia | exact I].
 Qed.
 
 Lemma conc_sound : forall t0 s gs, new_provider t0 = Some s -> groups_ok s t0 gs = true ->
-  groups_wf gs = true -> C12_ok (groups_obs gs) = true.
+  C12_ok (groups_obs gs) = true.
 Proof. intros t0 s gs Hn. apply (groups_sound gs t0 t0 s (new_inv _ _ Hn)). Qed.
+
+(* ---------- the one-pass oracle for very long histories ---------- *)
+Lemma long_of_ok : forall l prev,
+  match prev with Some (g, t, p) => forallb (pair_ok (BCur g t p)) l = true | None => True end ->
+  C12_ok l = true ->
+  long_ok (match prev with Some (_, _, p) => Some p | None => None end) l = true.
+Proof.
+  induction l as [|b r IH]; intros prev Hp Hok; [reflexivity|].
+  simpl in Hok. rewrite !andb_true_iff in Hok. destruct Hok as [[Ho Hpairs] Hrest].
+  simpl. rewrite Ho. simpl.
+  assert (Hnext : long_ok (match b with BCur _ _ k => Some k
+                           | _ => match prev with Some (_, _, p) => Some p | None => None end end) r = true).
+  { destruct b as [g t k | g t id rr].
+    - apply (IH (Some (g, t, k))); assumption.
+    - apply (IH prev); [|assumption]. destruct prev as [[[g0 t0] p]|]; [|exact I].
+      simpl in Hp. apply andb_true_iff in Hp. tauto. }
+  rewrite Hnext, andb_true_r.
+  destruct prev as [[[g0 t0] p]|]; [|destruct (obs_key b); reflexivity].
+  simpl in Hp. apply andb_true_iff in Hp. destruct Hp as [Hp _].
+  unfold pair_ok in Hp. rewrite !andb_true_iff in Hp. destruct Hp as [[H1 _] H3]. simpl in H1.
+  apply andb_true_iff. split.
+  - destruct (obs_key b); [assumption | reflexivity].
+  - destruct b; [assumption | reflexivity].
+Qed.
+
+Lemma model_meets_long_oracle : forall t0 ops s bs, mono t0 ops -> history t0 ops = Some (s, bs) ->
+  C12_long_ok bs = true.
+Proof.
+  intros t0 ops s bs Hm Hh. unfold C12_long_ok.
+  apply (long_of_ok bs None I). apply (model_meets_oracle _ _ _ _ Hm Hh).
+Qed.
+
+(* what the one-pass oracle decides about ALL Current results of a history *)
+Definition same_or_later (a b : key) : Prop := k_id a <= k_id b /\ (k_id a = k_id b -> a = b).
+
+Lemma same_or_later_trans : Relations_1.Transitive same_or_later.
+Proof.
+  intros a b c [H1 H2] [H3 H4]. split; [lia|]. intros He.
+  assert (Hab : k_id a = k_id b) by lia. assert (Hbc : k_id b = k_id c) by lia.
+  rewrite (H2 Hab). apply H4. assumption.
+Qed.
+
+Lemma long_chain : forall l prev, long_ok prev l = true ->
+  Sorted same_or_later (match prev with Some p => p :: curs l | None => curs l end).
+Proof.
+  induction l as [|b r IH]; intros prev H.
+  - destruct prev; simpl; repeat constructor.
+  - simpl in H. rewrite !andb_true_iff in H. destruct H as [[[Ho Hc] Hi] Hr].
+    destruct b as [g t k | g t id rr].
+    + specialize (IH (Some k) Hr). simpl in *. destruct prev as [p|]; [|assumption].
+      constructor; [assumption|]. constructor. apply Z.leb_le in Hi. split; [assumption|].
+      intros He. unfold keys_compat in Hc. rewrite !andb_true_iff in Hc. destruct Hc as [[Hc _] _].
+      apply Z.eqb_eq in He. rewrite He in Hc. apply key_eqb_eq. assumption.
+    + apply (IH prev Hr).
+Qed.
+
+Lemma long_unique : forall l, C12_long_ok l = true -> StronglySorted same_or_later (curs l).
+Proof.
+  intros l H. apply Sorted_StronglySorted; [apply same_or_later_trans|].
+  apply (long_chain l None H).
+Qed.
